@@ -818,6 +818,9 @@ func (c *Ctx) cmp(op Op, a, b *Term) *Term {
 		if a.IsConst() && a.C == mask(w) {
 			return c.False
 		}
+		if a.IsConst() && a.C >= umax(b) {
+			return c.False
+		}
 	case OUle:
 		if a.IsConst() && a.C == 0 {
 			return c.True
@@ -827,6 +830,9 @@ func (c *Ctx) cmp(op Op, a, b *Term) *Term {
 		}
 		if b.IsConst() && b.C == mask(w) {
 			return c.True
+		}
+		if a.IsConst() && a.C > umax(b) {
+			return c.False
 		}
 	case OSlt, OSle:
 		// both provably non-negative: use unsigned reasoning
